@@ -202,6 +202,7 @@ def run(ctx):
             ctx.ob("R05.3", "%s|%s|label" % (f.name, en[0]["n"].split("::")[-1]), ok, f.loc(n), "prints %r under %s" % (lits[0], en[0]["n"]))
     ctx.floor("R05.3", "text-dump flag labels", n_lab, 30)
     _derivations(ctx)
+    _virtual_inference(ctx)
 
 
 def _contains(tree, node):
@@ -283,3 +284,75 @@ def _derivations(ctx):
             used = {x.get("d") for x in walk(r) if x.get("k") == "ref"}
             ok = bool(cursor & used) and not any(x.get("k") == "call" and callee_short(x) in ("front", "back", "at", "operator[]") for x in walk(r))
     ctx.ob("R05.4", "make_wrapper_entry|parameter-name", ok, fe.loc(nm[0]) if nm else fe.loc(), "each recorded parameter takes its name from the same element of _parameters")
+
+
+def _virtual_inference(ctx):
+    """R05.5: the `virtual` role of an override written without the keyword is inferred by
+    CPPStructType::get_virtual_funcs(), which sets SC_virtual on the overriding member as a side effect.  The builder
+    reads SC_virtual when it records the method, so the inference must already have run for the class on every path."""
+    db = ctx.db
+    ctx.rule("R05.5", "in define_struct_type, every call that can record a method (reaches get_function, which copies SC_virtual into F_virtual) is dominated by a call that runs CPPStructType::get_virtual_funcs on the class (the only place SC_virtual is inferred for keyword-less overrides)")
+    gvf = db.fns("CPPStructType::get_virtual_funcs")
+    gf = [f for f in db.fns("InterrogateBuilder::get_function")]
+    if not gvf or not gf:
+        ctx.broken("get_virtual_funcs / get_function not found")
+    # get_function reads SC_virtual: confirm, else the rule's premise is gone
+    reads = any(x.get("k") == "ref" and x.get("n", "").endswith("SC_virtual") for f in gf for x in f.walk())
+    writes = any(x.get("k") == "bin" and x.get("op") == "|=" and any(y.get("k") == "ref" and y.get("n", "").endswith("SC_virtual") for y in walk(x["y"])) for f in gvf for x in f.walk())
+    if not reads or not writes:
+        ctx.broken("premise of R05.5 changed: get_function no longer reads SC_virtual (%s) or get_virtual_funcs no longer sets it (%s)" % (reads, writes))
+    cg = db.callgraph
+    rev = {}
+    for k, outs in cg.items():
+        for o in outs:
+            rev.setdefault(o, set()).add(k)
+
+    def reaching(targets, stop=()):
+        seen = set()
+        stack = [t.key for t in targets]
+        while stack:
+            k = stack.pop()
+            if k in seen or k in stop:
+                continue
+            seen.add(k)
+            stack.extend(rev.get(k, ()))
+        return seen
+    infer = reaching(gvf)
+    # recording *this* class's members: paths that re-enter define_struct_type record another class, which runs its own
+    # inference; a synthesised cast function is not a member
+    dst = {f.key for f in db.fns("InterrogateBuilder::define_struct_type")} | {f.key for f in db.fns("InterrogateBuilder::get_cast_function")}
+    record = reaching(gf, stop=dst)
+    by_ns = {}
+    for f in db.functions:
+        by_ns.setdefault(f.name + "|" + f.sig, []).append(f.key)
+    fd = db.fn("InterrogateBuilder::define_struct_type")
+    cfg = fd.cfg
+    struct_param = [p for p in fd.params if "CPPStructType" in p["t"]][0]["d"]
+    inf_blocks, sinks = set(), []
+    for c in fd.walk():
+        if c.get("k") != "call" or "f" not in c:
+            continue
+        keys = by_ns.get(c["f"] + "|" + c.get("s", ""), [])
+        if any(k in infer for k in keys) and "this" in c and (local_ref(c["this"]) or {}).get("d") == struct_param:
+            loc = cfg.locate(c)
+            if loc is not None:
+                # only an unconditional evaluation counts: not the right operand of && / ||, not a ?: branch
+                par_conditional = any(a.get("k") == "cond" or (a.get("k") == "bin" and a.get("op") in ("&&", "||") and not any(x is c for x in walk(a["x"]))) for a in fd.ancestors(c) if a.get("k") in ("cond", "bin"))
+                if not par_conditional:
+                    inf_blocks.add(loc[0])
+        if any(k in record for k in keys) and c["f"] != "InterrogateBuilder::define_struct_type":
+            sinks.append(c)
+    n_sink = [0]
+    reach = cfg.reachable(cut_blocks=inf_blocks)
+    seen = set()
+    for c in sinks:
+        nm = callee_short(c)
+        loc = cfg.locate(c)
+        ok = loc is None or loc[0] not in reach
+        key = "define_struct_type|%s" % nm
+        if key in seen and ok:
+            continue
+        seen.add(key)
+        n_sink[0] += 1
+        ctx.ob("R05.5", key, ok, fd.loc(c), "%s() is %sdominated by the virtual-function inference on the class" % (nm, "" if ok else "NOT "))
+    ctx.floor("R05.5", "method-recording calls in define_struct_type", n_sink[0], 2)
